@@ -9,7 +9,7 @@ BUILD = ("cd /verif/checker && GOFLAGS=-mod=vendor GOPROXY=off GOSUMDB=off GOTOO
 # id -> (built?, technique, level text, level note, design ref)
 P = {
  "C01": (True,
-   "value-term comparison: for every output of all 61 indicator Compute methods the calculus derives a term over the input series (delays, sub-indicator operators with their periods, arithmetic, inlined stateless closures, running folds) and compares its rational-function normal form with the formula transcribed from the doc comment; loop-free recurrences compared as guarded commands on every ordering of their inputs; anchors of all join operands vs. a frozen intrinsic-offset table",
+   "value-term comparison: for every output of all 61 indicator Compute methods the calculus derives a term over the input series (delays, sub-indicator operators with their periods, arithmetic, inlined stateless closures, running folds) and compares its rational-function normal form with the formula transcribed from the doc comment; loop-free recurrences compared as guarded commands on every ordering of their inputs; where the documented formula divides by configuration constants only, agreement also in integer arithmetic (nothing moved across a division); anchors of all join operands vs. a frozen intrinsic-offset table",
    "Static analysis of the structural part of C01, not a numeric evaluation: (1) the composition each indicator computes (which sub-indicators with which periods on which inputs, how many days delayed, which arithmetic and constants) is proved equal to the documented formula as an identity over uninterpreted operators, for all configurations and hence all series; (2) one step of each loop-free recurrence (EMA, RMA, SMMA, KAMA, moving sum, NVI, OBV) equals the documented update on every sign pattern of its comparisons, ties included; SuperTrend's band/trend selection step is compared with the documented rule on every truth assignment of its eight comparisons and two flags; the counted loops over the ring in Wma and MovingStd are read as sums and compared with the documented window formulas; (3) at every element-wise join (about 110) the operands refer to the same input position or differ by the documented offset; (4) padding of a shifted stream cannot influence the closure consuming it (polynomial use with zero fill, or behind a counter gate covering the padding). Not decided: the contents of the search tree behind MovingMax/MovingMin (C17 covers its comparator agreement), helper.Since, warm-up lengths (C02), floating-point rounding.",
    "Trusts go/types, the formula and recurrence tables transcribed from the doc comments, the intrinsic-offset table, Γ, the declared IdlePeriod contracts of sub-indicators (C02's obligation), Fourier–Motzkin and the polynomial normal forms. Genuine defects pinned by the unedited tests are listed as known findings: Apo, Dema, Emv, Fi (operands of different days), UlcerIndex (sqrt(Sma(PD)^2) instead of sqrt(Sma(PD^2))), Obv (compares the close with the previous OBV). Repaired: MovingMax/MovingMin removed the Shift padding value 0 from the window (6142cb6).",
    "§4 C01"),
@@ -49,12 +49,12 @@ P = {
    "Trusts go/ssa, the CHA call graph and the freshness model (allocations, constructor results, received channel elements are not shared); aliasing is field-insensitive (over-approximate).",
    "§4 C09"),
  "C10": (True,
-   "typed-AST lints on every asset.Repository implementation: synchronous consumption and error propagation in Append, decision table of the GetSince filter over {<,=,>}, zero-time returns carry an error, one fresh object per element sent in a loop, Assets() inverts exactly the file-name builder",
+   "typed-AST lints on every asset.Repository implementation: synchronous consumption and error propagation in Append, decision table of the GetSince filter over {<,=,>}, zero-time returns carry an error, one fresh object per element sent in a loop, Assets() inverts exactly the file-name builder, the factory applies the registered builder to the configuration given, read-modify-write of the locked map within one critical section",
    "Static analysis of structural necessary conditions only: every Append consumes its input in the caller's goroutine and returns the error of each write (needed for read-your-writes); the GetSince filter closures keep exactly the orderings {=,>} of (snapshot date, bound), decided on the finite ordering domain and identically in the sibling implementations; LastDate never returns the zero time with a nil error; unknown assets are errors. Equivalence with a map under arbitrary histories (file system, SQL driver, codecs) is not decided.",
    "Trusts go/types and the semantics of time.Time.Equal/After/Before; the SQL dialect text is not analysed. Repaired: SQLRepository.Append was asynchronous (dd89e0d).",
    "§4 C10"),
  "C11": (True,
-   "typed-AST agreement lints between encoder and decoder siblings (reflect kinds, bit-size table, float/time arguments, constant-folded open flags, header-map indexing, JSON delimiters)",
+   "typed-AST agreement lints between encoder and decoder siblings (reflect kinds, bit-size table, float/time arguments, constant-folded open flags, header-map indexing, JSON delimiters, distinct codec names per struct, no one-sided csv options)",
    "Static analysis of agreement rules without which some value cannot round-trip: same reflect kinds on both sides, a bit size for every sized kind used identically by formatter and parser, FormatFloat(…, -1, bits), one layout value for Format and Parse, WriteToFile truncates and AppendToFile appends (flag sets constant-folded), append only to an existing non-empty file, records indexed through the header map, header i and cell i of every written row come from the same column descriptor at the loop's own position, JSON delimiters agree. Equality of written and re-read values for all inputs (strconv, encoding/csv, encoding/json, time) is not decided.",
    "Trusts go/types constant folding and the documented semantics of the strconv/os functions named. Repaired: WriteToFile lacked O_TRUNC (ac57338); kindToBits lacked Uint8 (6348dc3).",
    "§4 C11"),
@@ -74,7 +74,7 @@ P = {
    "Trusts go/types, the template's zip semantics (its shape is re-checked on every run), contracts (C02, C05), Γ, Fourier–Motzkin. The Alligator/SMMA report columns inherit the pinned C05 defect (known findings); the APO column was repaired (fix: d5cfb51).",
    "§4 C14"),
  "C02": (True,
-   "stream-shape calculus (abstract interpretation of pipeline builders over the type-checked AST, periods and n symbolic) + exact linear entailment",
+   "stream-shape calculus (abstract interpretation of pipeline builders over the type-checked AST, periods and n symbolic) + exact linear entailment; the constructor-based assumptions of the admissibility table are proved on the objects the constructors return",
    "Static analysis. For every indicator Compute the number of values on each output and the anchor of its first value are derived from the current source as piecewise-linear expressions of the input length n and the configuration symbols, and proved equal to max(0, n - IdlePeriod()) / IdlePeriod() for ALL n >= 0 and ALL admissible configurations; unchecked receives whose value is sent on are proved to find an element. This is the quantifier the tests cannot reach (they pin one configuration and n = 251). Values are not decided.",
    "Trusts go/types, the admissibility table Γ, the helper.Ring fullness model and the in-house Fourier–Motzkin procedure; helper stages are re-summarised from helper/ on every run (C16 checks those summaries against the slice models). Sub-indicators are used through their declared IdlePeriod contract in the quick tier; the thorough tier re-derives everything contract-free.",
    "§4 C02"),
